@@ -2042,7 +2042,7 @@ func (e *DestroyExpression) Doc(ctx PrettyContext) prettier.Doc {
 		parenthesizedExpressionDoc(
 			ctx,
 			e.Expression,
-			e.precedence(),
+			expressionPrecedenceUnaryPrefix,
 		),
 	})
 }
@@ -2069,7 +2069,9 @@ func (e *DestroyExpression) MarshalJSON() ([]byte, error) {
 }
 
 func (*DestroyExpression) precedence() expressionPrecedence {
-	return expressionPrecedenceUnaryPrefix
+	// NOTE: the operand extends as far as possible,
+	// so a destroy expression which is an operand must be parenthesized
+	return expressionPrecedenceTernary
 }
 
 // ReferenceExpression
